@@ -46,6 +46,10 @@ type TxPlan struct {
 	Ops  []*Op  `json:"ops"`
 	Gas  uint64 `json:"gas,omitempty"`  // 0 = ample
 	Note string `json:"note,omitempty"` // provenance: retry-of, delayed-by, retimed
+	// Sim: before the block executes, the primary node (only) runs this transaction through
+	// baseapp's Simulate, as a client's gas estimation does: full message execution on a
+	// branch of the check state that is then discarded
+	Sim bool `json:"sim,omitempty"`
 	// generation-time only
 	At    int64 `json:"-"` // absolute height wanted (0: transport decides)
 	NoOOG bool  `json:"-"`
@@ -85,6 +89,7 @@ type EngineConfig struct {
 	PRestart    float64 `json:"p_restart"`
 	PCrash      float64 `json:"p_crash"`
 	PFailTail   float64 `json:"p_fail_tail"`
+	PSimulate   float64 `json:"p_simulate,omitempty"`
 	DeltaMode   string  `json:"delta_mode"`
 	FaultFree   bool    `json:"fault_free"`
 	OneTxBlocks bool    `json:"one_tx_blocks"`
@@ -145,6 +150,9 @@ func (s *Schedule) NumFaults() int {
 		n += len(b.Faults)
 		for _, t := range b.Txs {
 			if t.Gas != 0 {
+				n++
+			}
+			if t.Sim {
 				n++
 			}
 		}
